@@ -57,7 +57,9 @@ def main():
     env = dict(os.environ)
     tdir = os.path.join(TARGET, "cov")
     env.update({"CARGO_NET_OFFLINE": "true", "CARGO_TARGET_DIR": tdir, "LSMON_REPO": REPO,
-                "RUSTFLAGS": "--cfg lucid_suggest_verif -Cinstrument-coverage"})
+                "RUSTFLAGS": "--cfg lucid_suggest_verif -Cinstrument-coverage",
+                # build scripts and proc-macros are instrumented too: keep their profiles out of the repository
+                "LLVM_PROFILE_FILE": os.path.join(tdir, "build-%p.profraw")})
     p = sh(["cargo", "+nightly", "build", "--offline", "--quiet"], cwd=ws, env=env)
     if p.returncode != 0:
         print(p.stdout[-3000:])
